@@ -8,7 +8,7 @@ Every axiom carries a tag (DESIGN.md 2.3):
 Each spec function has an executable twin of the same name in gvc.ref.
 """
 import z3
-from z3 import ForAll, Implies, And, Or, Not, Select, Store, If, Function, Const, Consts, IntSort, BoolSort, ArraySort
+from z3 import ForAll, Exists, Implies, And, Or, Not, Select, Store, If, Function, Const, Consts, IntSort, BoolSort, ArraySort
 from .ty import *
 
 SetA = sort_of(SET(ATOM))
@@ -412,9 +412,11 @@ def s_dfa_pwf(ev, D):
 Reach = Function('Reach', DeltaD, SetA, Atom, SetA)        # (delta, Sigma, q): states reachable from q by >= 0 steps (least fixpoint)
 Reach1 = Function('Reach1', DeltaD, SetA, Atom, SetA)      # by >= 1 steps
 axiom('dfa', 'lfp', 'Reach-refl', ForAll([_d, _S, _q], Select(Reach(_d, _S, _q), _q)))
-axiom('dfa', 'lfp', 'Reach-step', ForAll([_d, _S, _q, _p, _a], Implies(And(Select(Reach(_d, _S, _q), _p), Select(_S, _a)), Select(Reach(_d, _S, _q), Select(_d, mkKey2(_p, _a))))))
+axiom('dfa', 'lfp', 'Reach-step', ForAll([_d, _S, _q, _p, _a], Implies(And(Select(Reach(_d, _S, _q), _p), Select(_S, _a)), Select(Reach(_d, _S, _q), Select(_d, mkKey2(_p, _a)))),
+                                          patterns=[Select(Reach(_d, _S, _q), Select(_d, mkKey2(_p, _a))), z3.MultiPattern(Select(Reach(_d, _S, _q), _p), Select(_d, mkKey2(_p, _a)))]))
 axiom('dfa', 'lfp', 'Reach1-first', ForAll([_d, _S, _q, _a], Implies(Select(_S, _a), Select(Reach1(_d, _S, _q), Select(_d, mkKey2(_q, _a))))))
-axiom('dfa', 'lfp', 'Reach1-step', ForAll([_d, _S, _q, _p, _a], Implies(And(Select(Reach1(_d, _S, _q), _p), Select(_S, _a)), Select(Reach1(_d, _S, _q), Select(_d, mkKey2(_p, _a))))))
+axiom('dfa', 'lfp', 'Reach1-step', ForAll([_d, _S, _q, _p, _a], Implies(And(Select(Reach1(_d, _S, _q), _p), Select(_S, _a)), Select(Reach1(_d, _S, _q), Select(_d, mkKey2(_p, _a)))),
+                                           patterns=[Select(Reach1(_d, _S, _q), Select(_d, mkKey2(_p, _a))), z3.MultiPattern(Select(Reach1(_d, _S, _q), _p), Select(_d, mkKey2(_p, _a)))]))
 
 
 def Reach_least(d, Sg, q, Tt, plus):
@@ -508,3 +510,64 @@ def s_hval(ev, D1, D2, x): return SV(ATOM, Select(isofn(D1.z, D2.z), x.z))
 
 @spec('keys')
 def s_keys(ev, m): return SV(SET(m.t.args[0]), map_dom(m))
+
+
+# ====================================================================== subset construction (C03)
+set_of_name = Function('set_of_name', Atom, SetA)
+axiom('naming', 'assumed', 'N1b set_of_name inverts print_state_set (same content as N1)', ForAll([_S], set_of_name(name_of_set(_S)) == _S))
+Sreach = Function('Sreach', ViewN, Atom, Atom, SetA, SetA, BoolSort())      # (view, eps, q0, Sigma, S): S is a subset reachable in the subset construction
+_Sg2 = Const('Sg2', SetA)
+axiom('nfa', 'lfp', 'Sreach-init', ForAll([_V, _e, _q, _Sg2], Sreach(_V, _e, _q, _Sg2, Eclo(_V, _e, Store(z3.K(Atom, False), _q, True)))))
+axiom('nfa', 'lfp', 'Sreach-step', ForAll([_V, _e, _q, _Sg2, _S, _a], Implies(And(Sreach(_V, _e, _q, _Sg2, _S), Select(_Sg2, _a)), Sreach(_V, _e, _q, _Sg2, Eclo(_V, _e, move(_V, _S, _a)))),
+                                           patterns=[Sreach(_V, _e, _q, _Sg2, Eclo(_V, _e, move(_V, _S, _a)))]))
+axiom('nfa', 'lemma', 'Eclo-idem', ForAll([_V, _e, _S], Eclo(_V, _e, Eclo(_V, _e, _S)) == Eclo(_V, _e, _S)))
+_NFAs = sort_of(REC('NFA')); _Nn = Const('Nn', _NFAs)
+
+
+def subset_struct(N, R):
+    """R is (a DFA with the structure of) the subset automaton of N, states named by print_state_set"""
+    V, e, q0 = nfa_view(N), _eps(N), rec_get(N, 'q0').z
+    RQ, RF, rd = rec_get(R, 'Q').z, rec_get(R, 'F').z, dfa_delta_val(R)
+    x, a, y = fresh_z('x', Atom), fresh_z('a', Atom), fresh_z('y', Atom)
+    sing = Store(z3.K(Atom, False), q0, True)
+    return And(rec_get(R, 'Sigma').z == rec_get(N, 'Sigma').z,
+               rec_get(R, 'q0').z == name_of_set(Eclo(V, e, sing)), Select(RQ, rec_get(R, 'q0').z),
+               ForAll([x], Implies(Select(RQ, x), x == name_of_set(set_of_name(x)))),
+               ForAll([x, a], Implies(And(Select(RQ, x), Select(rec_get(N, 'Sigma').z, a)),
+                                      And(Select(rd, mkKey2(x, a)) == name_of_set(Eclo(V, e, move(V, set_of_name(x), a))), Select(RQ, Select(rd, mkKey2(x, a)))))),
+               ForAll([x], Implies(Select(RQ, x), Select(RF, x) == Exists([y], And(Select(set_of_name(x), y), Select(rec_get(N, 'F').z, y))))))
+
+
+subset_b = Function('subset_struct', _NFAs, _DFAs, BoolSort())      # opaque name (hide / reveal)
+axiom('subset', 'def', 'subset_struct-def', ForAll([_Nn, _DR], subset_b(_Nn, _DR) == subset_struct(SV(REC('NFA'), _Nn), SV(REC('DFA'), _DR))))
+
+
+@spec('subset_struct')
+def s_subset_struct(ev, N, R): return SV(BOOL, subset_b(N.z, R.z))
+@spec('set_of_name')
+def s_set_of_name(ev, x): return SV(SET(ATOM), set_of_name(x.z))
+@spec('Sreach')
+def s_Sreach(ev, N, Sx): return SV(BOOL, Sreach(nfa_view(N), _eps(N), rec_get(N, 'q0').z, rec_get(N, 'Sigma').z, Sx.z))
+
+
+def _subset_sim():
+    N, R = SV(REC('NFA'), _Nn), SV(REC('DFA'), _DR)
+    V, e, q0 = nfa_view(N), _eps(N), rec_get(N, 'q0').z
+    d = dhat(dfa_delta_val(R), rec_get(R, 'q0').z, _w)
+    return ForAll([_Nn, _DR, _w], Implies(And(subset_b(_Nn, _DR), over(rec_get(N, 'Sigma').z, _w)),
+                                          And(d == name_of_set(Nhat(V, e, q0, _w)), Select(rec_get(R, 'Q').z, d))))
+axiom('subset', 'lemma', 'subset-sim', _subset_sim())
+def _subset_reach():
+    N, R = SV(REC('NFA'), _Nn), SV(REC('DFA'), _DR)
+    V, e, q0, Sg = nfa_view(N), _eps(N), rec_get(N, 'q0').z, rec_get(N, 'Sigma').z
+    return ForAll([_Nn, _DR, _S], Implies(And(subset_b(_Nn, _DR), Sreach(V, e, q0, Sg, _S)),
+                                          And(Select(rec_get(R, 'Q').z, name_of_set(_S)), Select(Reach(dfa_delta_val(R), rec_get(R, 'Sigma').z, rec_get(R, 'q0').z), name_of_set(_S)))))
+axiom('subset', 'lemma', 'subset-reach', _subset_reach())
+
+
+def Sreach_least(V, e, q0, Sg, P):
+    """leastness instance for Sreach: P is a predicate (python function on a SetA term) closed under the two rules"""
+    Sx, a = fresh_z('S', SetA), fresh_z('a', Atom)
+    sing = Store(z3.K(Atom, False), q0, True)
+    return Implies(And(P(Eclo(V, e, sing)), ForAll([Sx, a], Implies(And(P(Sx), Select(Sg, a)), P(Eclo(V, e, move(V, Sx, a)))))),
+                   ForAll([Sx], Implies(Sreach(V, e, q0, Sg, Sx), P(Sx))))
